@@ -2,8 +2,8 @@
 import z3
 
 from pyvc.contract import Contract
-from pyvc.engine import LoopSpec, SymSeq, GenResult, named, INT, BOOL, STR
-from pyvc import blocks
+from pyvc.engine import LoopSpec, SymSeq, GenResult, Obj, Sym, Builtin, named, INT, BOOL, STR
+from pyvc import blocks, stubs, externals
 
 PROP = 'C05'
 LEVEL = 'proof'
@@ -244,3 +244,70 @@ def rtt_replay(inputs, clause):
 
 
 run_tagging_tasks.replay = rtt_replay
+
+
+# ------------------------------------------------------------------------------ single-process tagging: read groups
+# "every record carries a read group that is declared in the header": the read group of every fragment of every molecule
+# that is written must be in the read_groups dict handed to sorted_bam_file (which writes the header at exit; its own
+# typestate is C20's unit).  One arbitrary molecule of two fragments with arbitrary (possibly different) read groups.
+RGDEF = z3.Function('read_group_definition', z3.StringSort(), z3.StringSort())
+
+
+def rg_setup(eng):
+    from contracts import c20
+    c20.common_setup(eng, ('closed', 'sorted', 'indexed'))
+    eng.monitor = None
+    eng.ghost['written'] = []
+    eng.ghost['no_faults'] = True
+    eng.spec_env['RGDEF_OF'] = Builtin('RGDEF_OF', lambda e, a, k, n: Sym(RGDEF(a[0].z), STR))
+
+    def get_rg(e, o, with_attr_dict=False):
+        g = o.attrs['rg']
+        return (g, Sym(RGDEF(g.z), STR)) if with_attr_dict else g
+
+    def mol(e, nm):
+        frs = [Obj('FragStub', {'rg': named(STR, 'read_group_of_fragment_%d' % i)}) for i in range(2)]
+        for f in frs:
+            f.vc_immutable = True
+        e.spec_env['FRAGS'] = frs
+        o = Obj('MolStub', {'frags': frs})
+        o.vc_immutable = True
+        return o
+    stubs.STUBS['FragStub'] = {'methods': {'get_read_group': get_rg}, 'props': {}, 'setters': {}}
+    stubs.STUBS['MolStub'] = {'methods': {
+        'set_meta': lambda e, o, *a: None, 'get_a_reference_id': lambda e, o: 'ref', 'write_tags': lambda e, o: None,
+        'write_pysam': lambda e, o, out: e.ghost['written'].append(o),
+        '__iter__': lambda e, o: list(o.attrs['frags']), '__getitem__': lambda e, o, i: o.attrs['frags'][i],
+        '__len__': lambda e, o: 2}, 'props': {}, 'setters': {}}
+    externals.EXTRA['itertools.chain'] = lambda e, a, k, n: stubs.ObjSeq(mol, 'molecules')
+
+
+def rg_mol_iter(eng, name):
+    return Builtin('molecule_iterator', lambda e, a, k, n: stubs.ObjSeq(lambda e2, nm: None, 'it'))
+
+
+read_groups_unit = Contract(
+    PROP, FT + '::tag_multiome_single_thread', name='tag_multiome_single_thread[read groups]',
+    params={'input_bam_path': ('const', 'in.bam'), 'out_bam_path': ('const', 'out.bam'), 'molecule_iterator': rg_mol_iter,
+            'molecule_iterator_args': ('const', None), 'consensus_model': 'none', 'consensus_model_args': ('const', None),
+            'ignore_bam_issues': ('const', False), 'head': 'none', 'no_source_reads': ('const', False)},
+    pre_state=lambda eng, fr: fr.env.update({'molecule_iterator_args': {'contig': None, 'start': None, 'end': None},
+                                             'consensus_model_args': {}}),
+    setup=rg_setup,
+    loops={'enumerate(molecule_iterator_exec)': LoopSpec(
+        inv={},
+        types={'read_groups': ('symdict', [(STR,)], STR), 'rgid': 'frame', 'fragment': 'frame'},
+        body_post={
+            'read_group_of_every_fragment_of_the_molecule_is_declared': 'all((f.rg in read_groups) for f in FRAGS)',
+            'declared_with_its_own_definition_unless_declared_before':
+                'all(implies(not (f.rg in head(read_groups, 0)), read_groups[f.rg] == RGDEF_OF(f.rg)) for f in FRAGS)',
+            'declared_read_groups_are_never_removed':
+                'forall("g:str", implies(g in head(read_groups, 0), g in read_groups))',
+        })},
+    raises={},
+    assumptions=['fragment.get_read_group() / get_read_group(True) through a stub: (id, definition(id)); molecules of two '
+                 'fragments with arbitrary read groups (the registration loop treats each fragment independently)',
+                 'sorted_bam_file writes the header from the dict object it was given (C20 unit covers its exit steps)',
+                 'no failures injected here (failure paths: C20)'],
+)
+UNITS.append(read_groups_unit)
